@@ -609,6 +609,14 @@ def compose(res, r, tier, model):
                 c = I.nlri_construct(fam, [rt], withdraw=wd)
                 if 'hex' in c:
                     enc.append((rt, bytes.fromhex(c['hex'])))
+            if fam.startswith('lu'):
+                # the same routes as another speaker may encode them: traffic-class (Exp) bits set in the bottom label
+                # entry (yabgp's own encoder always writes them as 0, a well-formed entry may carry any value)
+                for rt, e in list(enc)[::3]:
+                    n = len(rt['label'])
+                    if n and len(e) > 3 * n:
+                        tc = r.choice([0x02, 0x04, 0x08, 0x0e])
+                        enc.append((rt, e[:3 * n] + bytes([e[3 * n] | tc]) + e[3 * n + 1:]))
             tuples = [(x, y) for x in enc for y in enc]
             for _ in range(150 if tier == 'quick' else 3000):
                 tuples.append(tuple(r.choice(enc) for _ in range(r.choice([3, 4, 6, 10]))))
